@@ -598,6 +598,9 @@ impl Gate {
                 }
             }
 
+            #[cfg(feature = "verif-hooks")]
+            crate::verif::gate::ev("notify.sent", None);
+
             if closed_sender_found {
                 clone_senders.retain(|_uuid, sender| !sender.is_closed());
             }
@@ -794,6 +797,8 @@ impl Gate {
             #[cfg(feature = "verif-hooks")]
             crate::verif::gate::ev("suspension.mid", Some(slot));
             self.updates.insert(slot, removed);
+            #[cfg(feature = "verif-hooks")]
+            crate::verif::gate::ev("suspension.done", Some(slot));
         }
     }
 
@@ -842,6 +847,8 @@ impl Gate {
                 self.updates.remove(&subscription.slot);
             }
         } else {
+            #[cfg(feature = "verif-hooks")]
+            crate::verif::gate::ev("subscribe.responded", Some(slot));
             self.notify_clones(GateCommand::FollowSubscribe {
                 slot,
                 update_sender,
@@ -855,6 +862,8 @@ impl Gate {
         #[cfg(feature = "verif-hooks")]
         crate::verif::gate::ev("unsubscribe.mid", Some(slot));
         self.updates.remove(&slot);
+        #[cfg(feature = "verif-hooks")]
+        crate::verif::gate::ev("unsubscribe.done", Some(slot));
         self.notify_clones(GateCommand::FollowUnsubscribe { slot })
             .await;
     }
